@@ -500,9 +500,19 @@ def _error_text(s):
 
     h.do_noop = do_noop
     cmd = IMAPClientCommand("t1 NOOP")
+    if which == "timeout":
+        # the command never completes: the 120 s limit of BaseClientHandler.command answers, quoting the command
+        # (whose mailbox name, sent as a literal, is the client-supplied string)
+        import asyncio
+
+        async def do_status(cmd):
+            await asyncio.Event().wait()
+
+        h.do_status = do_status
+        cmd = IMAPClientCommand("t1 STATUS {%d}\r\n%s (MESSAGES)" % (len(s), s))
     cmd.parse()
     loop = SimLoop()
-    st, t = loop.run_coro(h.command(cmd))
+    st, t = loop.run_coro(h.command(cmd), max_time=1000.0)
     out = "".join(px.out)
     reached()
     check(out.endswith("\r\n"), "C07/error_text/reply_not_crlf_terminated", out=out, s=s)
@@ -536,7 +546,7 @@ def jobs(tier):
             for st in ((0, 1, 2) if kind in ("copy", "move", "uid_copy", "uid_move") and n else (None,)):
                 js.append({"name": f"command_response[{kind},n={n}" + (f",st={st}]" if st is not None else "]"), "module": "harness.c06", "fn": "one_command", "params": {"kind": kind, "n": n, "st": st, "wellformed": True}, "timeout": T, "per_path": 90, "unblock": UNBLOCK})
     js.append({"name": "name_response", "fn": "name_response", "params": {}, "timeout": T, "per_path": 90, "unblock": UNBLOCK})
-    for which in ("no", "bad", "exc"):
+    for which in ("no", "bad", "exc", "timeout"):
         js.append({"name": f"error_text[{which}]", "fn": "error_text", "params": {"which": which, "total": _nstrings(2 if q else 3)}, "timeout": T, "per_path": 60})
     return js
 
